@@ -11,7 +11,8 @@ EXPLANATION = (
     "target is the very path the worker read - no worker creates, renames or writes a file name another worker could "
     "also touch (a shared temporary name is an interference between workers, invisible with one thread). (R-NOSTATE) the library keeps no static / thread-local cell, lock, atomic or once-initialised value "
     "except compiled regular expressions, so a worker that formats several files carries nothing from one to the next. With these the "
-    "status is a max over a schedule-independent set of events and every file is written by exactly one worker.")
+    "status is a max over a schedule-independent set of events and every file is written by exactly one worker."
+    "Later rounds: (R-WALK dedup) one job per file; (R-WORKERS) no pool parameter other than its size is computed from the thread count; Builder pools accepted.")
 ASSUMPTIONS = ["SeqCst atomics; threadpool::join waits for all queued jobs",
                "rustc MIR and Instance::try_resolve are trusted"]
 
